@@ -312,6 +312,7 @@ func ruleEffectInputs(c *Ctx) {
 		"Decimal.Decompose": "buf is the documented scratch buffer", "Append": "buf is the destination", "Decimal.Append": "buf is the destination",
 		"Decimal.appendSpecial": "buf is the destination", "digits.fmtE": "buf is the destination", "digits.fmtF": "buf is the destination", "digits.pad": "buf is the destination",
 	}
+	writes := p.sliceWrites()
 	n := 0
 	for _, name := range p.sortedFuncNames() {
 		fd := p.Funcs[name]
@@ -357,22 +358,12 @@ func ruleEffectInputs(c *Ctx) {
 				}
 				viol := ""
 				if kind == "bytes" {
-					ast.Inspect(fd.Body, func(nd ast.Node) bool {
-						switch x := nd.(type) {
-						case *ast.AssignStmt:
-							for _, l := range x.Lhs {
-								if ix, ok := ast.Unparen(l).(*ast.IndexExpr); ok && p.objOf(ix.X) == po {
-									viol = "stores into " + pn.Name + "[...] at " + p.posStr(x)
-								}
-							}
-						case *ast.CallExpr:
-							cn := p.calleeName(x)
-							if (cn == "builtin.append" || cn == "builtin.copy") && len(x.Args) > 0 && p.objOf(x.Args[0]) == po {
-								viol = cn + " writes through " + pn.Name + " at " + p.posStr(x)
-							}
-						}
-						return true
-					})
+					viol = writes[name][po]
+					if viol != "" && !fd.Name.IsExported() {
+						// an internal helper: what it writes through is attributed to whoever hands it the slice
+						c.ok(key, pn, "internal helper: its writes through "+pn.Name+" are charged to its callers", "C20")
+						continue
+					}
 				} else {
 					// path-sensitive: the parameter may be replaced by a private copy
 					in := newInterp(p)
@@ -757,4 +748,137 @@ func (p *Prog) negIndexGuards(fd *ast.FuncDecl, stack []ast.Node, site ast.Node,
 		why += fmt.Sprintf("no dominating guard establishes %s <= %d", p.exprStr(x), off)
 	}
 	return okLo, okHi, why
+}
+
+// sliceWrites computes, for every function, which of its slice parameters it
+// writes through: element stores, append/copy with the parameter as
+// destination, the same through a local alias (x := p, x := p[a:b]), or
+// handing it to a package function that writes through the corresponding
+// parameter (fixpoint over the call graph). The value describes the write.
+func (p *Prog) sliceWrites() map[string]map[types.Object]string {
+	out := map[string]map[types.Object]string{}
+	isSlice := func(o types.Object) bool {
+		if o == nil {
+			return false
+		}
+		switch o.Type().Underlying().(type) {
+		case *types.Slice:
+			return true
+		}
+		_, tp := o.Type().(*types.TypeParam)
+		return tp
+	}
+	names := p.sortedFuncNames()
+	for iter := 0; iter < 5; iter++ {
+		changed := false
+		for _, name := range names {
+			fd := p.Funcs[name]
+			if fd.Body == nil {
+				continue
+			}
+			var params []types.Object
+			if fd.Type.Params != nil {
+				for _, f := range fd.Type.Params.List {
+					for _, n := range f.Names {
+						params = append(params, p.Info.Defs[n])
+					}
+				}
+			}
+			// alias[o] = the parameter a local slice may alias
+			alias := map[types.Object]types.Object{}
+			for _, po := range params {
+				if isSlice(po) {
+					alias[po] = po
+				}
+			}
+			root := func(e ast.Expr) types.Object {
+				for {
+					e = ast.Unparen(e)
+					switch x := e.(type) {
+					case *ast.SliceExpr:
+						e = x.X
+						continue
+					case *ast.Ident:
+						return alias[p.objOf(x)]
+					}
+					return nil
+				}
+			}
+			for pass := 0; pass < 3; pass++ {
+				ast.Inspect(fd.Body, func(n ast.Node) bool {
+					as, ok := n.(*ast.AssignStmt)
+					if !ok || len(as.Lhs) != len(as.Rhs) {
+						return true
+					}
+					for i, r := range as.Rhs {
+						if src := root(r); src != nil {
+							if lo := p.objOf(as.Lhs[i]); lo != nil && alias[lo] == nil {
+								alias[lo] = src
+							}
+						}
+					}
+					return true
+				})
+			}
+			note := func(po types.Object, what string) {
+				if out[name] == nil {
+					out[name] = map[types.Object]string{}
+				}
+				if out[name][po] == "" {
+					out[name][po] = what
+					changed = true
+				}
+			}
+			ast.Inspect(fd.Body, func(n ast.Node) bool {
+				switch x := n.(type) {
+				case *ast.AssignStmt:
+					for _, l := range x.Lhs {
+						if ix, ok := ast.Unparen(l).(*ast.IndexExpr); ok {
+							if po := root(ix.X); po != nil {
+								note(po, "stores into "+po.Name()+"[...] at "+p.posStr(x))
+							}
+						}
+					}
+				case *ast.IncDecStmt:
+					if ix, ok := ast.Unparen(x.X).(*ast.IndexExpr); ok {
+						if po := root(ix.X); po != nil {
+							note(po, "modifies "+po.Name()+"[...] at "+p.posStr(x))
+						}
+					}
+				case *ast.CallExpr:
+					cn := p.calleeName(x)
+					if (cn == "builtin.append" || cn == "builtin.copy") && len(x.Args) > 0 {
+						if po := root(x.Args[0]); po != nil {
+							// append to a parameter that is the documented destination is reported like a store
+							note(po, cn+" writes through "+po.Name()+" at "+p.posStr(x))
+						}
+						return true
+					}
+					cfd := p.Funcs[cn]
+					if cfd == nil || cfd.Type.Params == nil {
+						return true
+					}
+					var cps []types.Object
+					for _, f := range cfd.Type.Params.List {
+						for _, n := range f.Names {
+							cps = append(cps, p.Info.Defs[n])
+						}
+					}
+					for i, a := range x.Args {
+						if i >= len(cps) {
+							break
+						}
+						if po := root(a); po != nil && out[cn][cps[i]] != "" {
+							note(po, "hands "+po.Name()+" to "+cn+", which "+out[cn][cps[i]])
+						}
+					}
+				}
+				return true
+			})
+		}
+		if !changed {
+			break
+		}
+	}
+	return out
 }
